@@ -219,8 +219,8 @@ fn scripts(maxlen: usize) -> Vec<Vec<Ev>> {
 // balanced channels: endpoints come and go through the discovery channel
 //
 // `Channel::balance_channel` connects every inserted endpoint with tonic's own TCP connector, so
-// this section has to use real loopback sockets and real time: two tonic servers on 127.0.0.1
-// (process-wide), and per execution a fresh balanced channel driven through one discovery history.
+// this section has to use real loopback sockets and real time: per execution two fresh tonic
+// servers on 127.0.0.1 and a fresh balanced channel driven through one discovery history.
 
 #[derive(Clone, Copy, Debug, PartialEq, Eq)]
 enum BalOp {
@@ -235,46 +235,21 @@ struct BalCase {
     depth: usize,
 }
 
-fn backends() -> [u16; 2] {
-    static PORTS: std::sync::OnceLock<[u16; 2]> = std::sync::OnceLock::new();
-    *PORTS.get_or_init(|| {
-        let (tx, rx) = std::sync::mpsc::channel::<Result<[u16; 2], String>>();
-        std::thread::spawn(move || {
-            let rt = match tokio::runtime::Builder::new_current_thread().enable_all().build() {
-                Ok(rt) => rt,
-                Err(e) => {
-                    let _ = tx.send(Err(format!("backend runtime: {e}")));
-                    return;
-                }
-            };
-            rt.block_on(async move {
-                let mut ports = [0u16; 2];
-                for p in ports.iter_mut() {
-                    let l = match tokio::net::TcpListener::bind("127.0.0.1:0").await {
-                        Ok(l) => l,
-                        Err(e) => {
-                            let _ = tx.send(Err(format!("cannot bind a loopback listener: {e}")));
-                            return;
-                        }
-                    };
-                    *p = l.local_addr().map(|a| a.port()).unwrap_or(0);
-                    let script = Script { initial_md: vec![], msgs: vec![vec![42]], end: None, handler_err: false, bidi: BidiMode::Ignore, disable_compression: false, exact_hint: false };
-                    let (server, _log) = new_server(script, &Chooser::detached(), false);
-                    let incoming = tokio_stream::wrappers::TcpListenerStream::new(l);
-                    tokio::spawn(async move {
-                        let _ = Server::builder().add_service(server).serve_with_incoming(incoming).await;
-                    });
-                }
-                let _ = tx.send(Ok(ports));
-                std::future::pending::<()>().await
-            });
+/// Starts this execution's own two servers on loopback ports (inside the execution's runtime, so
+/// that no server-side state survives from one execution to the next).
+async fn backends() -> [u16; 2] {
+    let mut ports = [0u16; 2];
+    for p in ports.iter_mut() {
+        let l = tokio::net::TcpListener::bind("127.0.0.1:0").await.unwrap_or_else(|e| crate::explore::machinery(format!("cannot bind a loopback listener: {e}")));
+        *p = l.local_addr().map(|a| a.port()).unwrap_or(0);
+        let script = Script { initial_md: vec![], msgs: vec![vec![42]], end: None, handler_err: false, bidi: BidiMode::Ignore, disable_compression: false, exact_hint: false };
+        let (server, _log) = new_server(script, &Chooser::detached(), false);
+        let incoming = tokio_stream::wrappers::TcpListenerStream::new(l);
+        tokio::spawn(async move {
+            let _ = Server::builder().add_service(server).serve_with_incoming(incoming).await;
         });
-        match rx.recv_timeout(Duration::from_secs(30)) {
-            Ok(Ok(p)) => p,
-            Ok(Err(e)) => crate::explore::machinery(e),
-            Err(_) => crate::explore::machinery("loopback backends did not start".to_string()),
-        }
-    })
+    }
+    ports
 }
 
 fn bal_menu(live: &[bool; 2]) -> Vec<BalOp> {
@@ -286,11 +261,11 @@ fn bal_menu(live: &[bool; 2]) -> Vec<BalOp> {
 }
 
 fn bal_body(c: &BalCase, ch: &Chooser) -> Outcome {
-    let ports = backends();
     let rt = tokio::runtime::Builder::new_current_thread().enable_all().build().unwrap_or_else(|e| crate::explore::machinery(format!("runtime: {e}")));
     let c = c.clone();
     let ch = ch.clone();
     let (trace, bad) = rt.block_on(async move {
+        let ports = backends().await;
         let (channel, tx) = tonic::transport::Channel::balance_channel::<usize>(16);
         let mut live = [false; 2];
         let mut trace: Vec<String> = vec![];
@@ -406,7 +381,7 @@ pub fn property(tier: Tier) -> Property {
     let bal = Section::new(
         "balance-discovery",
         Config { hang_secs: 120, ..Default::default() },
-        "cases: every history of depth 5 (thorough 6) over {insert endpoint k, remove endpoint k (k in 0..2), call (only while the model has an endpoint registered)} on a fresh Channel::balance_channel (choices cost nothing; one case per first operation). A balanced channel connects inserted endpoints with tonic's own TCP connector, so this section alone runs over real loopback sockets in real time against two process-wide tonic servers on 127.0.0.1; the only verdict taken from it is completion: RefBalance = the set of registered keys; a call issued while that set is non-empty must return the backend's answer (bound: 20 s of real time, thousands of times a loopback call's latency) — whether an endpoint was registered before, removed and registered again must not matter. Non-trivial = the history removes an endpoint and makes a call.",
+        "cases: every history of depth 5 (thorough 6) over {insert endpoint k, remove endpoint k (k in 0..2), call (only while the model has an endpoint registered)} on a fresh Channel::balance_channel (choices cost nothing; one case per first operation). A balanced channel connects inserted endpoints with tonic's own TCP connector, so this section alone runs over real loopback sockets in real time against two tonic servers on 127.0.0.1 that each execution starts for itself; the only verdict taken from it is completion: RefBalance = the set of registered keys; a call issued while that set is non-empty must return the backend's answer (bound: 20 s of real time, thousands of times a loopback call's latency) — whether an endpoint was registered before, removed and registered again must not matter. Non-trivial = the history removes an endpoint and makes a call.",
         bal_menu(&[false; 2]).into_iter().map(|first| BalCase { first, depth: bdepth }).collect(),
         |c: &BalCase| format!("first={:?} depth={}", c.first, c.depth),
         bal_body,
